@@ -43,6 +43,7 @@ func TestC07_Fallback(t *testing.T) {
 	rapid.Check(t, func(t *rapid.T) {
 		cmds, cls := gen.DB(t, gen.CmdOpts{Platforms: true, Unicode: rapid.IntRange(0, 3).Draw(t, "u") == 0}, []int{0, 1, 3, 10, 1})
 		db := gen.Load(t, cmds)
+		warmed := warmUp(t, db, cmds)
 		q, qc := gen.Query(t, cmds, []gen.QueryClass{"vocab", "typo", "typo", "typo", "fragment", "fragment", "one", "punct", "mixed", "unicode", "stop"})
 		q = stripNUL(q)
 		tr := true
@@ -66,6 +67,9 @@ func TestC07_Fallback(t *testing.T) {
 		nontrivial := false
 		if smallLimit {
 			labels = append(labels, "small-limit")
+		}
+		if warmed > 0 {
+			labels = append(labels, "warmed-database")
 		}
 		if len(rOff) > 0 {
 			a, b := rank(db, rOff), rank(db, rOn)
